@@ -1,6 +1,107 @@
+import Proofs.C17.PowNext
 /-!
-# C17 — property theorems only (see DESIGN.md §3 C17).
+# C17 — block commitments: merkle roots, proofs, filters, compact blocks and targets
+
+Property theorems only.  The proof-of-work functions are the *translated* source
+(`Gen.Pow.*`, regenerated from /repo's `btclib/block/proof_of_work.py` on every run); the reference
+they are proved equal to is the hand transcription of Bitcoin Core in `Model/C17/CorePow.lean`.
+A compact value `nCompact` is the big-endian reading `ofBE b` of the four `bits` bytes.
 -/
 namespace Props.C17
+open Btc Btc.Py Btc.Pow
+
+/-! ## T7 — the compact target codec is Core's, for every input -/
+
+/-- `target_from_bits` is `SetCompact`: refused (library ValueError) exactly on a width other than four
+    bytes or when Core sets `fOverflow`; otherwise the 32-byte big-endian rendering of Core's value. -/
+theorem target_from_bits_eq_core (b : Bytes) :
+    Gen.Pow.target_from_bits b =
+      if b.length ≠ 4 then .error .value
+      else if (CorePow.setCompact (ofBE b)).overflow then .error .value
+      else .ok (beBytes 32 (CorePow.setCompact (ofBE b)).value) := by
+  by_cases h : b.length = 4
+  · obtain ⟨x0, x1, x2, x3, rfl⟩ := len4 b h
+    simp only [List.length_cons, List.length_nil, ne_eq, not_true_eq_false, if_false]
+    exact target_from_bits_core4 x0 x1 x2 x3
+  · simp only [ne_eq, h, not_false_eq_true, if_true]
+    exact target_from_bits_bad b h
+
+/-- `is_negative_bits` is `SetCompact`'s `fNegative` (sign bit set and a non-zero shifted magnitude). -/
+theorem is_negative_bits_eq_core (b : Bytes) :
+    Gen.Pow.is_negative_bits b =
+      if b.length ≠ 4 then .error .value else .ok (CorePow.setCompact (ofBE b)).negative := by
+  by_cases h : b.length = 4
+  · obtain ⟨x0, x1, x2, x3, rfl⟩ := len4 b h
+    simp only [List.length_cons, List.length_nil, ne_eq, not_true_eq_false, if_false]
+    exact is_negative_bits_core4 x0 x1 x2 x3
+  · simp only [ne_eq, h, not_false_eq_true, if_true]
+    exact is_negative_bits_bad b h
+
+/-- `bits_from_target` is `GetCompact` for every target of at most 32 bytes, and refuses longer ones. -/
+theorem bits_from_target_eq_core (t : Bytes) :
+    Gen.Pow.bits_from_target t =
+      if t.length > 32 then .error .value else .ok (beBytes 4 (CorePow.getCompact (ofBE t))) := by
+  by_cases h : t.length > 32
+  · simp only [h, if_true]; exact bits_from_target_bad t h
+  · simp only [h, if_false]; exact bits_from_target_core t (by omega)
+
+/-! ## T8 — retarget and work -/
+
+/-- `next_bits` (integer core: `timespan` = seconds between the two block times) is Core's
+    `CalculateNextWorkRequired` for every timespan, including the 256-bit wrap of the product,
+    whenever neither compact form overflows. -/
+theorem next_bits_eq_core (b l : Bytes) (ts : Int) (hb4 : b.length = 4) (hl4 : l.length = 4)
+    (hb : (CorePow.setCompact (ofBE b)).overflow = false)
+    (hl : (CorePow.setCompact (ofBE l)).overflow = false) :
+    Gen.Pow.next_bits b l ts =
+      .ok (beBytes 4 (CorePow.calculateNextWorkRequired (ofBE b) ts (CorePow.setCompact (ofBE l)).value)) := by
+  obtain ⟨x0, x1, x2, x3, rfl⟩ := len4 b hb4
+  obtain ⟨y0, y1, y2, y3, rfl⟩ := len4 l hl4
+  exact next_bits_core4 x0 x1 x2 x3 y0 y1 y2 y3 ts hb hl
+
+/-- `block_work` is `2^256 // (target + 1)`; an overflowing, a zero and a negative compact form are refused. -/
+theorem block_work_formula (b : Bytes) (hb4 : b.length = 4) :
+    Gen.Pow.block_work b =
+      if (CorePow.setCompact (ofBE b)).overflow then .error .value
+      else if (CorePow.setCompact (ofBE b)).value = 0 then .error .value
+      else if (CorePow.setCompact (ofBE b)).negative then .error .value
+      else .ok ((2 ^ 256 / ((CorePow.setCompact (ofBE b)).value + 1) : Nat) : Int) := by
+  obtain ⟨x0, x1, x2, x3, rfl⟩ := len4 b hb4
+  exact block_work_formula4 x0 x1 x2 x3
+
+/-- …which is Core's `GetBlockProof` (`~t / (t+1) + 1`) for EVERY four bytes: btclib raises its
+    ValueError exactly where Core answers 0 (negative, overflowing or zero target), and returns
+    Core's number everywhere else. -/
+theorem block_work_eq_core (b : Bytes) (hb4 : b.length = 4) :
+    Gen.Pow.block_work b =
+      if CorePow.getBlockProof (ofBE b) = 0 then .error .value
+      else .ok ((CorePow.getBlockProof (ofBE b) : Nat) : Int) := by
+  obtain ⟨x0, x1, x2, x3, rfl⟩ := len4 b hb4
+  have hv := setCompact_value_lt x0 x1 x2 x3
+  rw [block_work_formula4 x0 x1 x2 x3, getBlockProof_eq _ (by norm_num at hv ⊢; exact hv)]
+  generalize (CorePow.setCompact (ofBE [x0, x1, x2, x3])).negative = N at *
+  generalize (CorePow.setCompact (ofBE [x0, x1, x2, x3])).overflow = O at *
+  generalize (CorePow.setCompact (ofBE [x0, x1, x2, x3])).value = V at *
+  cases O
+  · by_cases h0 : V = 0
+    · simp [h0]
+    · have : 2 ^ 256 / (V + 1) ≠ 0 := by
+        have : V + 1 ≤ 2 ^ 256 := by norm_num at hv ⊢; omega
+        exact Nat.ne_of_gt (Nat.div_pos this (by omega))
+      cases N
+      · simp [h0, this]
+        norm_num at hv
+        omega
+      · simp [h0]
+  · simp
+
+-- non-vacuity: mainnet genesis bits, a sign-bit case, an overflow, a wrap-free retarget
+example : Gen.Pow.target_from_bits [0x1d, 0x00, 0xff, 0xff] =
+    .ok (beBytes 32 (0xffff * 256 ^ 26)) := by decide
+example : Gen.Pow.is_negative_bits [0x04, 0x92, 0x34, 0x56] = .ok true := by decide
+example : Gen.Pow.target_from_bits [0x23, 0x00, 0x00, 0x01] = .error .value := by decide
+example : Gen.Pow.bits_from_target [0x80] = .ok [0x02, 0x00, 0x80, 0x00] := by decide
+example : (CorePow.setCompact 0x1d00ffff).overflow = false := by decide
+example : Gen.Pow.block_work [0x1d, 0x80, 0xff, 0xff] = .error .value := by decide
 
 end Props.C17
